@@ -29,9 +29,10 @@ MUTANTS = [
     ('C02-params-truncated', 'C02M', 'vermouth/gmx/itp.py', "                parameters = ' '.join(str(x) for x in interaction.parameters)", "                parameters = ' '.join(str(x) for x in interaction.parameters[:3])", 400),
     ('C02-vsn-order', 'C02M', 'vermouth/gmx/itp.py', '                    to_join = [atoms[0], parameters] + atoms[1:]', '                    to_join = atoms + [parameters]', 400),
     ('C02-ifndef-as-ifdef', 'C02M', 'vermouth/gmx/itp.py', "    conditional_keys = {True: '#ifdef', False: '#ifndef'}\n    for name in molecule.sort_interactions", "    conditional_keys = {True: '#ifdef', False: '#ifdef'}\n    for name in molecule.sort_interactions", 400),
-    ('C03-count-off-by-one', 'C03', 'vermouth/gmx/topology.py', '        moltype_count.append([moltype, 1 + len(list(molecules))])', '        moltype_count.append([moltype, max(1, len(list(molecules)))])', 150),
-    ('C03-dedup-ignores-interactions', 'C03', 'vermouth/molecule.py', '            self.same_edges(other) and\n            self.same_interactions(other)\n        )\n\n    # TODO: Allow comparison', '            self.same_edges(other)\n        )\n\n    # TODO: Allow comparison', 200),
-    ('C03-pdb-node-order', 'C03', 'vermouth/pdb/pdb.py', '        for node_idx in molecule.sorted_nodes:', '        for node_idx in molecule.nodes:', 200),
+    ('C03-count-off-by-one', 'C03P', 'vermouth/gmx/topology.py', '        moltype_count.append([moltype, 1 + len(list(molecules))])', '        moltype_count.append([moltype, max(1, len(list(molecules)))])', 150),
+    ('C03-dedup-ignores-interactions', 'C03P', 'vermouth/molecule.py', '            self.same_edges(other) and\n            self.same_interactions(other)\n        )\n\n    # TODO: Allow comparison', '            self.same_edges(other)\n        )\n\n    # TODO: Allow comparison', 200),
+    ('C03-pdb-node-order', 'C03M', 'vermouth/pdb/pdb.py', '        for node_idx in molecule.sorted_nodes:', '        for node_idx in molecule.nodes:', 200),
+    ('C03-gro-node-order', 'C03M', 'vermouth/gmx/gro.py', '            node_order = molecule.sorted_nodes', '            node_order = molecule.nodes', 500),
     ('C06-not-induced', 'C06', 'vermouth/ismags.py', '            not_gn_neighbours = set(self.graph.nodes) - set(self.graph[gn])', '            not_gn_neighbours = set(self.graph.nodes)', 300),
     ('C06-no-constraints', 'C06', 'vermouth/ismags.py', '                if node_i != node_t:\n                    # Node i must be smaller than node t.', '                if node_i != node_t and len(cosets) > 3:\n                    # Node i must be smaller than node t.', 600),
     ('C08-overdeduct', 'C08', 'vermouth/log_helpers.py', '            total -= max(0, min(count, specs[warning_type]))', '            total -= max(0, specs[warning_type])', 60),
